@@ -71,6 +71,10 @@ func c05(c *rt.Ctx) {
 	c.Rule("A4", 9, func() { need("verifyMsg", "hashProto"); c05A4(e) })
 	c.Rule("A5", 4, func() { c05A5(e) })
 	c.Rule("A6", 4, func() { c05A6(e) })
+	c.Rule("A7", 2, func() {
+		need("Consensus.handle", "verifyMsg", "valuesByHash", "newMsg", "Consensus.getRecvBuffer")
+		c05A7(e)
+	})
 }
 
 // ---------------------------------------------------------------------------------------------
@@ -681,55 +685,10 @@ func c05A1(e *c05env) {
 	c := e.c
 	en := e.engine()
 	h := c05ResolveHandle(e)
-	expired := constOf(c, "core", "DeadlineExpired")
-	const cons = c05Q + ".Consensus"
-	lenOf := func(t *an.H05Term) *an.H05Term { return an.H05T("builtin", "len", t) }
-	vals0 := an.H05ExtractT(0, an.H05CallT(c05N("valuesByHash"), h.values))
-	built := an.H05ExtractT(0, an.H05CallT(c05N("newMsg"), h.msg, h.just, vals0))
-
-	qMain := c05CallQ(c05N("verifyMsg"), an.H05ErrNil, "no verifyMsg(pbMsg.GetMsg(), c.pubkeys) call in handle", h.msg, h.pubkeys)
-	qGater := &c05callQ{name: "c.gaterFunc", spec: an.H05Spec{BoolIdx: 0, BoolWant: true}, args: []*an.H05Term{h.duty},
-		missing: "no c.gaterFunc(duty) call on the message's duty in handle",
-		callee: func(en *an.H05, g *ssa.Call, f *an.H05Frame) bool {
-			if g.Call.IsInvoke() || g.Call.StaticCallee() != nil {
-				return false
-			}
-			return an.H05Same(en.Term(g.Call.Value, f), h.gater)
-		}}
-	// the amplification limits, as a mechanism: the number of justifications is bounded by the cluster size
-	// and the number of values by the number of justifications — wherever the comparisons live
-	// (verifyMsgLimits, a differently named helper, inline)
-	qLimJust := &c05boundQ{coll: h.just, what: "justification", by: []*an.H05Term{lenOf(h.pubkeys), lenOf(h.peers)}, req: h.pb}
-	qLimVals := &c05boundQ{coll: h.values, what: "value", by: []*an.H05Term{lenOf(h.just)}, req: h.pb}
-	limitsAt := func(in ssa.Instruction, f *an.H05Frame) an.H05Verdict {
-		lj := h.est(en, qLimJust, in, f)
-		lv := h.est(en, qLimVals, in, f)
-		if c05Rank(lv) < c05Rank(lj) {
-			lj, lv = lv, lj
-		}
-		if lj.Yes && lv.Yes && lj.Wit == nil {
-			lj.Wit, lj.WitFrame = lv.Wit, lv.WitFrame
-		}
-		return lj // the worse of the two
-	}
-	qJust := &an.H05ForallQ{Name: "verifyMsg", Coll: h.just,
-		Missing: "no verifyMsg call on the elements of a loop over pbMsg.GetJustification()",
-		Inner: func(elem *an.H05Term) an.H05Query {
-			return c05CallQ(c05N("verifyMsg"), an.H05ErrNil, "no verifyMsg(justification, c.pubkeys) call in the loop", elem, h.pubkeys)
-		}}
-	qDuty := &an.H05ForallQ{Name: "dutyeq", Coll: h.just,
-		Missing: "no comparison of DutyFromProto(justification.GetDuty()) with the message duty in a loop over pbMsg.GetJustification()",
-		Inner: func(elem *an.H05Term) an.H05Query {
-			return &an.H05EqQ{A: an.H05CallT("core.DutyFromProto", an.H05Field(c05PB+".QBFTMsg.Duty", elem)), B: h.duty,
-				Missing: "no comparison of the justification's duty with the message duty in the loop"}
-		}}
-	qValues := c05CallQ(c05N("valuesByHash"), an.H05ErrNil, "no valuesByHash(pbMsg.GetValues()) call in handle", h.values)
-	qBuilt := c05CallQ(c05N("newMsg"), an.H05ErrNil, "no newMsg(pbMsg.GetMsg(), pbMsg.GetJustification(), values) call over the verified parts in handle", h.msg, h.just, vals0)
-	qDeadline := &c05callQ{name: "c.deadliner.Add", spec: an.H05Spec{BoolIdx: -1, NotConst: constant.MakeInt64(expired)}, args: []*an.H05Term{h.duty},
-		missing: "no c.deadliner.Add(duty) on the message's duty before the send",
-		callee: func(en *an.H05, g *ssa.Call, f *an.H05Frame) bool {
-			return an.Invoke("core.Deadliner.Add")(&g.Call) && an.H05Same(en.Term(g.Call.Value, f), h.deadliner)
-		}}
+	g := c05BuildGuards(e, h)
+	built := g.built
+	qMain, qGater, qJust, qDuty, qValues, qBuilt, qDeadline := g.main, g.gater, g.just, g.duty, g.values, g.newMsg, g.deadline
+	limitsAt := g.limitsAt
 
 	for _, sk := range h.sinks {
 		sink, f := sk.in, sk.f
@@ -1661,12 +1620,15 @@ func c05HashProv(e *c05env, root *an.H05Frame, ret *ssa.Return, acc an.H05Accept
 			// that computed it
 			var site ssa.Instruction = ret
 			sacc := acc
+			upImp := false
 			if tf != root {
 				r, isRet := o.Site.(*ssa.Return)
 				if !isRet || r.Parent() != tf.Fn {
 					return an.H05Verdict{Unsure: true, Why: "the hash is computed by a helper in a way the checker cannot follow"}
 				}
-				site, sacc = r, nil
+				// the helper may reject itself or report the outcome of the lookup to its caller (a found
+				// flag, an error): the walk goes on in the caller with what the helper's return yields
+				site, sacc = r, c05UpAccept(en, tf, root, r, ret, acc, &upImp, 0)
 			}
 			tru, fls := an.H05ConstAbs(constant.MakeBool(true)), an.H05ConstAbs(constant.MakeBool(false))
 			// with ok == false the non-zero value must not be selected
@@ -1693,11 +1655,16 @@ func c05HashProv(e *c05env, root *an.H05Frame, ret *ssa.Return, acc an.H05Accept
 					env[lk] = an.H05NilAbs
 				}
 				// a valid hash reaches the commit point neither with the lookup failing nor around the lookup
+				upImp = false
 				r1, imp1 := en.ReachUnder(call, site, env, sacc)
 				r2, imp2 := false, false
-				if !(lk.Block() == call.Block() && an.Dominates(call, lk)) { // else: nothing between the two
+				switch {
+				case lk.Block() == call.Block() && an.Dominates(call, lk): // nothing between the two
+				case lk.Block() == site.Block() && an.Dominates(lk, site): // the commit point lies behind the lookup in its block
+				default:
 					r2, imp2 = en.ReachUnderAvoiding(call, site, an.H05Env{okv: tru}, sacc, lk.Block())
 				}
+				imp1 = imp1 || upImp
 				if !r1 && !r2 {
 					present = true
 				} else if imp1 || imp2 {
@@ -1716,6 +1683,49 @@ func c05HashProv(e *c05env, root *an.H05Frame, ret *ssa.Return, acc an.H05Accept
 		return an.H05Verdict{Why: "hash field is always zero"}
 	}
 	return an.H05Verdict{Yes: true}
+}
+
+// c05UpAccept is the arrival filter of the return r of the helper activation f (a descendant of root): the
+// arrival counts if, with what r yields on that path (a found flag, an error, …), control in the caller
+// goes on to the commit point rootSite/rootAcc of root (through the successful returns of intermediate
+// helpers). imp is set when the continuation cannot be followed (then the arrival counts).
+func c05UpAccept(en *an.H05, f, root *an.H05Frame, r *ssa.Return, rootSite ssa.Instruction, rootAcc an.H05Accept, imp *bool, depth int) an.H05Accept {
+	return func(pred *ssa.BasicBlock, env an.H05Env) bool {
+		cv, isCall := f.Call.(*ssa.Call)
+		if f == root || f.Parent == nil || !isCall || depth > 4 {
+			*imp = true
+			return true
+		}
+		abs := en.ResultsAt(r, pred, env)
+		env2 := an.H05Env{}
+		for i, a := range abs {
+			if a.Kind == an.H05Unknown {
+				continue
+			}
+			if len(abs) == 1 {
+				env2[cv] = a
+			} else if x := c05Extract(cv, i); x != nil {
+				env2[x] = a
+			}
+		}
+		parent := f.Parent
+		if parent == root {
+			reach, im := en.ReachUnder(cv, rootSite, env2, rootAcc)
+			if reach && im {
+				*imp = true
+			}
+			return reach
+		}
+		for _, pr := range en.SuccessReturns(parent.Fn, an.H05ErrNil) {
+			if reach, im := en.ReachUnder(cv, pr, env2, c05UpAccept(en, parent, root, pr, rootSite, rootAcc, imp, depth+1)); reach {
+				if im {
+					*imp = true
+				}
+				return true
+			}
+		}
+		return false
+	}
 }
 
 // c05JustProv: Msg.justification is the list of newMsg(j, …, values) results for every element j of the
